@@ -14,6 +14,7 @@ inspects (it only concatenates and encodes them); the split into lines happens b
 """
 from __future__ import annotations
 
+import asyncio
 import itertools
 from typing import Any, Dict, List, Optional, Tuple
 
@@ -278,6 +279,9 @@ def run_job(job) -> report.JobResult:
                 eng.solver.add(z3.Or(c.e < 0x80, c.e > 0x9F))  # C1 controls are the engine's placeholders in this charset
         return s
     data = mk(ld, "d") if "data" in fields else None
+    if data is not None and job.get("dtemplate"):  # longer data of one shape: '*' = symbolic character, the rest literal
+        it = iter(data.items)
+        data = SStr([next(it) if ch == "*" else ord(ch) for ch in job["dtemplate"]])
     name = mk(ln, "n") if "event" in fields else None
     ident = mk(li, "i") if "id" in fields else None
     retry_v = z3.Int("retry")
@@ -394,6 +398,9 @@ def job_stream(job) -> report.JobResult:
     for c in d0.items + d1.items:
         eng.solver.add(z3.Or(c.e < 0xD800, c.e > 0xDFFF), c.e < 0xF0000)
     shims = Shims().add(R, re=ReShim)
+    delays = [z3.Int(f"quiet{k}") for k in range(3)]
+    for dv in delays:
+        eng.solver.add(dv >= 0, dv <= 100)
     seqs = {"plain": lambda: [{"data": d0, "event": "a"}, {"data": d1, "id": "7"}],
             "with-empty": lambda: [{"data": d0, "event": "a"}, {}, {"data": d1, "id": "7"}],
             "empty-first": lambda: [{}, {"data": d0, "event": "a"}, {"data": d1, "id": "7"}]}
@@ -409,7 +416,11 @@ def job_stream(job) -> report.JobResult:
             wire = b"".join(x[1] for x in ev if x[0] == "body")
         else:
             async def gen():
-                for it in items:
+                for k, it in enumerate(items):
+                    if job.get("quiet"):  # the producer stays quiet for a symbolic number of ticks: 0..3 keep-alive pings in between
+                        dly = SInt(delays[k])
+                        if dly > 0:
+                            await asyncio.sleep(dly)
                     yield dict(it)
             ev, done = gw.run_asgi(M.SendEventResponse(gen(), ping_interval=30), {"type": "http", "method": "GET", "headers": []}, use_loop=True)
             wire = b"".join(x[1].get("body", b"") for x in ev if x[0] == "send" and x[1]["type"] == "http.response.body")
@@ -441,11 +452,18 @@ def job_stream(job) -> report.JobResult:
         e.last_sat = False
         m = e.witness()
         wit = {"iface": iface, "sequence": job["seq"], "data": [conc(d0, m), conc(d1, m)]}
+        if job.get("quiet"):
+            wit["quiet_ticks_before_each_event"] = [m.eval(dv, True).as_long() for dv in delays]
+        replayed = klass is not None or res["validated"] < 40
+        with shims.off():
+            cp = concrete_stream(wit) if replayed else None
         if klass is not None:
-            res.violation(f"C19/SendEventResponse/{iface}/{klass.split(':')[0]}", wit, f"{klass} {detail}", True)
+            res.violation(f"C19/SendEventResponse/{iface}/{klass.split(':')[0]}", wit, f"{klass} {detail}; concrete: {cp}", (cp is not None) or bool(job.get("twin")))
             return
         res.kind("one-event")
-        res["validated"] += 0
+        if cp is not None:
+            res["harness_errors"].append(f"symbolic path holds but the concrete run fails: {wit}: {cp}")
+        res["validated"] += 1 if replayed else 0
         res.sample({"iface": iface, "sequence": job["seq"]}, limit=1)
 
     with shims:
@@ -454,12 +472,57 @@ def job_stream(job) -> report.JobResult:
     return res
 
 
+def concrete_stream(w) -> Optional[str]:
+    """the same sequence with concrete data and concrete quiet periods through the unshimmed response classes (ASGI: on the
+    virtual-time loop, which only replaces the clock) and the plain-text reference parser"""
+    import re
+    from . import gw
+    prev = Engine.cur
+    Engine.cur = None
+    try:
+        d0, d1 = w["data"]
+        items = {"plain": [{"data": d0, "event": "a"}, {"data": d1, "id": "7"}],
+                 "with-empty": [{"data": d0, "event": "a"}, {}, {"data": d1, "id": "7"}],
+                 "empty-first": [{}, {"data": d0, "event": "a"}, {"data": d1, "id": "7"}]}[w["sequence"]]
+        quiet = w.get("quiet_ticks_before_each_event")
+        if w["iface"] == "wsgi":
+            def gen():
+                for it in items:
+                    yield dict(it)
+            ev, done = gw.run_wsgi(WR.SendEventResponse(gen(), ping_interval=30), {"REQUEST_METHOD": "GET"})
+            wire = b"".join(x[1] for x in ev if x[0] == "body")
+        else:
+            async def gen():
+                for k, it in enumerate(items):
+                    if quiet and quiet[k] > 0:
+                        await asyncio.sleep(quiet[k])
+                    yield dict(it)
+            ev, done = gw.run_asgi(AR.SendEventResponse(gen(), ping_interval=30), {"type": "http", "method": "GET", "headers": []}, use_loop=True)
+            wire = b"".join(x[1].get("body", b"") for x in ev if x[0] == "send" and x[1]["type"] == "http.response.body")
+        if not done or any(x[0] == "raise" for x in ev):
+            return f"stream did not complete: {[x for x in ev if x[0] == 'raise']}"
+        events, last_id, _ = concrete_whatwg((PING + wire).decode("utf-8"))
+        want = [("a", "\n".join(re.split("\r\n|\r|\n", d0))), ("", "\n".join(re.split("\r\n|\r|\n", d1)))]
+        got = [(t, x) for t, x, *_ in events]
+        if got != want:
+            return f"parser dispatched {got!r}, yielded {want!r}"
+        if last_id != "7":
+            return f"last event id {last_id!r}"
+        return None
+    except Exception as ex:  # noqa: BLE001
+        return f"exception {type(ex).__name__}: {ex}"
+    finally:
+        Engine.cur = prev
+
+
 def jobs(tier: str):
     b = META["bounds"][tier]
     out = []
     for iface in ("wsgi", "asgi"):
         for seq in ("plain", "with-empty", "empty-first"):
             out.append(dict(name=f"stream/{iface}/{seq}", kind="stream", iface=iface, seq=seq, charset="utf-8", fields=[]))
+    for seq in ("plain", "with-empty"):
+        out.append(dict(name=f"stream/asgi/{seq}/quiet-producer", kind="stream", iface="asgi", seq=seq, charset="utf-8", fields=[], quiet=True))
     for charset in b["charsets"]:
         for ld in range(0, b["data_len_max"] + 1):
             out.append(dict(name=f"{charset}/data{ld}", charset=charset, fields=["data"], ld=ld, weight=4 ** ld))
@@ -473,12 +536,21 @@ def jobs(tier: str):
         out.append(dict(name=f"{charset}/retry-only", charset=charset, fields=["retry"]))
         out.append(dict(name=f"{charset}/all-fields", charset=charset, fields=["id", "event", "retry", "data"], ld=1, ln=1, li=1, weight=60))
         out.append(dict(name=f"{charset}/all-fields-rev+ping", charset=charset, fields=["data", "retry", "event", "id"], ld=2, ln=1, li=1, ping=True, weight=200))
+    # many lines: more line breaks than any small split limit, the last lines symbolic (they may look like fields: "id: x")
+    for charset in b["charsets"][:1]:
+        for lb, tag in (("\n", "lf"), ("\r", "cr"), ("\r\n", "crlf")):
+            t = lb.join(f"l{i}" for i in range(9)) + lb + "*" + lb + "**"
+            out.append(dict(name=f"{charset}/data-12-lines-{tag}", charset=charset, fields=["data"], ld=3, dtemplate=t, weight=70))
     out.append(dict(name="twin/data1", charset="utf-8", fields=["data"], ld=1, twin=True))
     return out
 
 
 def replay(rec) -> int:
     w = rec["witness"]
+    if "sequence" in w:
+        cp = concrete_stream(w)
+        print(f"replay C19: {w!r} -> {cp}")
+        return 1 if cp else 0
     cp = concrete_problem(w["event"], w["charset"], w.get("ping", False))
     print(f"replay C19: {w!r} -> {cp}")
     return 1 if cp else 0
